@@ -106,3 +106,21 @@ func VerifWriteHandshake(pconn net.PacketConn, addr net.Addr, cfg *Config, typ u
 	}
 	return t, err
 }
+
+// ---- cookie (C18)
+
+func VerifGenerateCookie(secret []byte, addr string, params []byte) []byte {
+	return generateCookie(secret, addr, params)
+}
+func VerifVerifyCookie(secret []byte, addr string, params, cookie []byte) bool {
+	return verifyCookie(secret, addr, params, cookie)
+}
+
+// VerifClientHello builds a ClientHello with exactly the given fields (no extensions) and
+// returns its handshake encoding and the string the cookie is computed over.
+func VerifClientHello(vers uint16, random, sid, cookie []byte, suites []uint16, comp []byte, seq uint16) (msg []byte, params []byte, err error) {
+	m := &clientHelloMsg{vers: vers, random: random, sessionId: sid, cookie: cookie, cipherSuites: suites, compressionMethods: comp}
+	m.setMessageSeq(seq)
+	msg, err = m.marshal()
+	return msg, m.marshalForCookie(), err
+}
